@@ -117,7 +117,8 @@ RETCODE adfMountHdFile ( struct AdfDevice * const dev )
         dev->nVol = 0;
         return RC_ERROR;
     }
-    vol->lastBlock = vol->rootBlock*2 - 1 ;
+    /* the volume spans the whole file (2*root-1 is one block short for odd sizes) */
+    vol->lastBlock = (int32_t) dev->cylinders - 1;
 
     return RC_OK;
 }
